@@ -359,3 +359,11 @@ Example C04_program_calls_never_longer_example :
   total ex04c < 2 ^ 31 /\
   corr_m [("fn", 0); ("nr", 1048598)]%string [("fn", 0); ("nr", 1048588)]%string 0 0 ex04c ex04c_chunksU ex04c_chunksC.
 Proof. split. vm_compute; reflexivity. exact ex04c_corr_m. Qed.
+
+(* ---- Arithmetic.eval as the source has it (Gen/Guards.v): the expression text goes to the builtin eval as written, with no builtins and the
+   environment handed in; the POSITION of the item plays no part (so an arithmetic expression without labels is settled); every
+   exception becomes an AssemblerError at the line; the result must be an int *)
+From BB Require Gen.Guards Proofs.Guards.
+Theorem C04_arithmetic_eval_from_source : Proofs.Guards.arithmetic_eval_from_source_stmt.
+Proof. exact Proofs.Guards.arithmetic_eval_from_source. Qed.
+Print Assumptions C04_arithmetic_eval_from_source.
